@@ -134,3 +134,26 @@ func VerifNewHandOver() *VerifCluster {
 	cl.vpSetOwners(0, []int{0, 1}, nil)
 	return &VerifCluster{cl: cl}
 }
+
+// VerifNewBackupHandOver: four members, ReplicaCount 3, one partition: member 0 primary owner, members 1 and 2 the
+// current backup owners, member 3 a former backup owner that still holds a backup fragment.
+func VerifNewBackupHandOver() *VerifCluster {
+	cl := vpNewCluster(vpClusterConfig{members: 4, replicaCount: 3, writeQuorum: 1, readQuorum: 1, partitions: 1})
+	cl.vpSetOwners(0, []int{0}, []int{1, 2})
+	return &VerifCluster{cl: cl}
+}
+
+// SetDown makes member i unreachable (every RPC to it fails) or reachable again.
+func (v *VerifCluster) SetDown(i int, down bool) { v.cl.members[i].down = down }
+
+// PlaceBackup writes a key straight into member i's backup fragment; BackupOn reads member i's own backup copy.
+func (v *VerifCluster) PlaceBackup(i int, name, key string, val []byte) {
+	vpPlace(v.cl.members[i], name, key, val, 0, 1, partitions.BACKUP)
+}
+func (v *VerifCluster) BackupOn(i int, name, key string) ([]byte, bool) {
+	e, ok := vpCopy(v.cl.members[i], name, key, partitions.BACKUP)
+	if !ok {
+		return nil, false
+	}
+	return vpDup(e.Value()), true
+}
